@@ -482,8 +482,8 @@ int parsec_argv_delete(int *argc, char ***argv, int start, int num_to_delete)
     tmp = (char**)realloc(*argv, sizeof(char*) * (i + 1));
     if (NULL != tmp) *argv = tmp;
 
-    /* adjust the argc */
-    (*argc) -= num_to_delete;
+    /* adjust the argc: fewer than num_to_delete entries may have existed */
+    (*argc) -= (count - i);
 
     return PARSEC_SUCCESS;
 }
